@@ -88,8 +88,10 @@ def add : Pt → Pt → Pt
 def smulF : (fuel k : Nat) → Pt → Pt → Pt
   | 0, _, _, acc => acc
   | fuel+1, k, p, acc =>
-    let acc' := if k % 2 == 1 then add acc p else acc
-    smulF fuel (k / 2) (add p p) acc'
+    if k == 0 then acc
+    else
+      let acc' := if k % 2 == 1 then add acc p else acc
+      smulF fuel (k / 2) (add p p) acc'
 
 /-- k • p for k < 2^257 (double-and-add, least significant bit first) -/
 def smul (k : Nat) (p : Pt) : Pt := smulF 257 k p .inf
